@@ -52,10 +52,16 @@ CLAIMED = {
     "C19": ("differential monitor: loader output vs the description kept by the generator (YAML and JSON, with and without absl flags); closed-loop in-flight census from observed events of full simulations",
             "held on the K generated descriptions over all five release policies, override flags and replication, and on the closed-loop runs",
             "DESIGN.md 4/C19", "Trusted base: the generator's description. Deadline base not judged when zero-weight jobs make the critical path's SLO sum ambiguous."),
+    "C10": ("wrapper monitor on every policy's schedule(): decision-shape checks, exact interval-packing feasibility against the shadow cluster, before/after digests of live cluster and tasks; live calls in full simulations plus shadow invocations of the other policies on the same states",
+            "held on the K live and shadow schedule() calls of all eight policies on reachable states, apart from the listed known findings",
+            "DESIGN.md 4/C10", E2E_NOTE + " Joint capacity is judged per resource name with the weakest reading of a running task's expected end."),
+    "C18": ("online monitor on every frontier / completion-notification / releasable call in full simulations, probe calls on a grid of lookaheads, switches and branch policies at every scheduler start, and a direct random walker over task-graph states",
+            "held on the K observed and probed frontier calls and walker steps, apart from the listed known finding",
+            "DESIGN.md 4/C18", E2E_NOTE),
 }
 
 _WIP = "check not built yet in this session; planned with the same technique, see DESIGN.md section 4"
-NOT_YET = {p: _WIP for p in ["C10", "C11", "C12", "C14", "C15", "C18", "C20"]}
+NOT_YET = {p: _WIP for p in ["C11", "C12", "C14", "C15", "C20"]}
 
 
 def build():
